@@ -110,7 +110,7 @@ def cases(run: Run):
         pattern[-1] = "obs"
         m = sum(dims)
         c = {
-            "n": n, "dims": dims, "alpha": alpha, "kappa": kappa, "beta": beta, "resample": rng.random() < 0.5, "pattern": pattern, "tuning": tuning,
+            "n": n, "dims": dims, "alpha": alpha, "kappa": kappa, "beta": beta, "resample": rng.random() < 0.5, "flow": rng.choice(["direct", "engine"]), "pattern": pattern, "tuning": tuning,
             "x0": [Fraction(rng.randint(-20, 20), 4) for _ in range(n)], "L0": rand_lower(rng, n),
             "F": [[Fraction(rng.randint(-2, 2), rng.choice([4, 8, 16])) + (1 if i == j else 0) for j in range(n)] for i in range(n)],
             "Lq": [[(Fraction(rng.choice([1, 2]), 4) if i == j else Fraction(0)) for j in range(n)] for i in range(n)],
@@ -168,17 +168,29 @@ def impl_run(c):
                               np.array([[float(x) for x in r] for r in Q]), None, False, False, resample=c["resample"], **kw)
     w = {"mean_sum": float(np.sum(f.mean_weight)), "gamma": float(f.gamma), "mean_weight": [float(x) for x in f.mean_weight], "cvr0": float(f.cvr_weight[0, 0])}
     steps = []
+    import copy
+
+    engine = c.get("flow") == "engine"
     for k, kind in enumerate(c["pattern"]):
-        f.predict(ScenarioTime(60.0 * (k + 1)))
+        if engine:
+            # the way the scenario drives a filter: a worker copy predicts and only the result fields are applied to the agent's filter;
+            # a worker copy updates and the agent takes that whole filter back
+            worker = copy.deepcopy(f)
+            worker.predict(ScenarioTime(60.0 * (k + 1)))
+            worker.getPredictionResult().apply(f)
+        else:
+            f.predict(ScenarioTime(60.0 * (k + 1)))
         rec = {"kind": kind, "pred_x": f.pred_x.copy(), "pred_p": f.pred_p.copy()}
         obs = make_obs(c, c["ys"][k])
         if kind == "forecast-miss":
-            f.forecast(obs)  # a look-ahead (as tasking does), then the observation is missed
-            f.update([])
-        elif kind == "none":
-            f.update([])
+            (copy.deepcopy(f) if engine else f).forecast(obs)  # a look-ahead (as tasking does), then the observation is missed
+        upd = copy.deepcopy(f) if engine else f
+        if kind in ("forecast-miss", "none"):
+            upd.update([])
         else:
-            f.update(obs)
+            upd.update(obs)
+        f = upd
+        if kind not in ("forecast-miss", "none"):
             rec.update(S=f.innov_cvr.copy(), C=f.cross_cvr.copy(), K=f.kalman_gain.copy())
         rec.update(est_x=f.est_x.copy(), est_p=f.est_p.copy())
         steps.append(rec)
@@ -322,7 +334,7 @@ def run_cases(run: Run, cs):
     outs = run.model(lines)
     for c, i, r, (a, ls) in zip(cs, impls, refs, spans):
         jc = enc(c)
-        small = {k: v for k, v in jc.items() if k in ("n", "dims", "alpha", "kappa", "beta", "resample", "pattern", "tuning")}
+        small = {k: v for k, v in jc.items() if k in ("n", "dims", "alpha", "kappa", "beta", "resample", "flow", "pattern", "tuning")}
         run.case("ukf", small, nontrivial=True, branch=("redraw" if c["resample"] else "no-redraw") + ":" + c["tuning"])
         if 2 * c["n"] + 1 == len(c["r"]):
             run.count("square-measurement-sigma-matrix")
